@@ -148,14 +148,19 @@ def run(res, tier, seed):
         for x in all_nodes(m):
             if is_var(x):
                 continue
-            r = flags_case(res, x)
+            try:
+                r = flags_case(res, x)
+            except Exception as e:
+                r = f"is_tautology / is_contradiction / equation_bounds raised {type(e).__name__}: {str(e)[:160]}"
             res.count("flags_checked")
             if any(int(c.bounds.lower) <= -32768 or int(c.bounds.upper) >= 32767 for c in x.propositions):
                 res.count("flags_with_16bit_extreme_child")
-            if x.is_tautology: res.count("flag_tautology")
-            if x.is_contradiction: res.count("flag_contradiction")
             if r:
                 res.violation("oracle", f"flags of node {x!r} wrong: {r}", {"op": "flags", "model": ast_json(ast), "node": x.id, "problem": r})
+                if "raised" in r:
+                    continue
+            if x.is_tautology: res.count("flag_tautology")
+            if x.is_contradiction: res.count("flag_contradiction")
             fcases.append((lambda it, x=x: f"({dump(x, it)}, {b(bool(x.is_tautology))}, {b(bool(x.is_contradiction))}, ({z(x.equation_bounds[0])}, {z(x.equation_bounds[1])}))", (ast, x.id)))
     n, failing, errs = run_case_shards("C06", "evalprops", "", "interp * prop * list (ident * (Z * Z)) * (Z * Z)", "check_evalprops", cases)
     n2, failing2, errs2 = run_case_shards("C06", "flags", "", "prop * bool * bool * (Z * Z)", "check_flags", fcases)
@@ -184,7 +189,10 @@ def replay(payload):
     class R: evaluations = 0
     if r.get("op") == "flags":
         x = [n for n in all_nodes(build(ast)) if n.id == r["node"]][0]
-        p = flags_case(R, x, cap=10**7)
+        try:
+            p = flags_case(R, x, cap=10**7)
+        except Exception as e:
+            p = f"raised {type(e).__name__}: {e}"
         print("node", x, "->", "FAILS: " + p if p else "holds")
         return 1 if p else 0
     d = {k: tuple(v) for k, v in r["interpretation"].items()}
